@@ -405,6 +405,14 @@ func propCases(res *Result, prop, tier string, g *Gen, n int, batch int) []*Case
 		cases = append(cases, contractCases(g, n*4)...)
 	case "C03", "C06", "C12", "C15":
 		cases = append(cases, engineCases(g, n/3, true, prop != "C12")...)
+		if prop != "C15" && batch == 0 {
+			// runtime.Error, *net.OpError, redact.SafeMessager (kinds the special-case formatter knows
+			// and the model does not): direct oracles only
+			cases = append(cases, specialKindCases(g, false, prop != "C06")...)
+			if prop != "C12" {
+				cases = append(cases, specialKindCases(g, true, prop != "C06")...)
+			}
+		}
 		if prop == "C03" || prop == "C12" {
 			// unsafe inputs of several KiB (caps, cuts and windows over a rendering land inside
 			// them): judged by the taint oracles only
@@ -419,6 +427,9 @@ func propCases(res *Result, prop, tier string, g *Gen, n int, batch int) []*Case
 		}
 	case "C09":
 		cases = append(cases, engineCases(g, n/3, false, false)...)
+		if batch == 0 {
+			cases = append(cases, specialKindCases(g, false, false)...)
+		}
 	case "FMT":
 		// formatting-engine tie only: every generator family, half of the cases over the
 		// hostile alphabet (markers, newlines, NUL, invalid UTF-8, empty strings)
